@@ -15,7 +15,8 @@ LEVEL = "exploration"
 RULE = (
     "Random: Hypothesis draws 2..5 groups of 2..8 rows, each group containing both labels, scores from "
     "one of six level sets ({0,1}, k/3, wide k/3, one-decimal, reals / reals in [0,1] rounded to 3 "
-    "decimals, so distinct levels are >= 1e-3 apart), a row permutation, one of the 7 constraint names "
+    "decimals, so distinct levels are >= 1e-3 apart; per group independent of the label, informative or "
+    "anti-informative), a row permutation, one of the 7 constraint names (equalized_odds on ~1/3 of the cases) "
     "x an admissible objective x flip x grid_size in {1,2,3,7,10,50,1000} x prefit x predict_method in "
     "{predict, decision_function, auto} and containers (X ndarray/DataFrame, y and sensitive features "
     "list/ndarray/Series, group labels strings or ints). Exhaustive: every multiset of rows over "
